@@ -49,6 +49,8 @@ func init() {
 			{ID: "R07x", Floor: 1, Doc: "the stores and readers carry no new state from call to call (= R08s)", Run: ruleR08s},
 			{ID: "R07y", Floor: 1, Doc: "a section exactly at the size limit is served by every front-end: the limit test is `>` (= R09b)", Run: ruleR09b},
 			{ID: "R07z", Floor: 2, Doc: "an index read back answers for every hash function it holds: decode and load loops store a fresh object per iteration (= R11i)", Run: ruleR11i},
+			{ID: "R07A", Floor: 8, Doc: "a section read through the blockstore is filled with io.ReadFull: framing functions (= R01b)", Run: ruleR01b},
+			{ID: "R07B", Floor: 20, Doc: "Roots reads the header under the header limit, like every other reader of it (= R09c)", Run: ruleR09c},
 		},
 	})
 }
